@@ -4,10 +4,11 @@
 import Driver.Proto
 import Driver.OpsDates
 import Driver.OpsBind
+import Driver.OpsBackends
 open Lean
 
 def dispatchers : List (String → Json → Option (Except String Json)) :=
-  [OpsDates.run, OpsBind.run]
+  [OpsDates.run, OpsBind.run, OpsBackends.run]
 
 def handle (line : String) : Json :=
   match Json.parse line with
